@@ -9,6 +9,10 @@
 (*   h.begin k  dump number k is about to be taken                         *)
 (*   h.closed k files   dump k was written and closed; directory listing   *)
 (*   end how files      the process ended: exit | crashed | abort | failed *)
+(* A "procstart" after a crashed end is a recovery: a new process in the   *)
+(* folder the crash left behind; its dumps must not fail either, and after *)
+(* each of them the newest state is in the main file and the complete      *)
+(* backups are newest-first (AfterRecoveredDumpOK).                        *)
 (***************************************************************************)
 EXTENDS Integers, Sequences, TLC, Json, IOUtils
 
@@ -23,9 +27,10 @@ VARIABLES dir,       \* last observed directory
           prevGood,  \* complete version in restart.dump when the dump began
           phase,     \* idle | dumping | crashed | aborted | ended
           stray,     \* a file with an unexpected name was seen
+          recovered, \* a new process was started in this folder after a crash
           l
 
-vars == <<dir, ver, ndone, prevGood, phase, stray, l>>
+vars == <<dir, ver, ndone, prevGood, phase, stray, recovered, l>>
 Rec == TraceLog[l]
 IsEvent(e) == l <= Len(TraceLog) /\ Rec.e = e /\ l' = l + 1
 
@@ -39,37 +44,41 @@ DirOf(files) ==
 HasStray(files) == \E k \in 1..Len(files) : files[k].n \notin -1 .. (MaxBackups - 1)
 
 Init == /\ dir = Empty /\ ver = 0 /\ ndone = 0 /\ prevGood = 0
-        /\ phase = "ended" /\ stray = FALSE /\ l = 2
+        /\ phase = "ended" /\ stray = FALSE /\ recovered = FALSE /\ l = 2
 
 TScn == /\ IsEvent("scn")
         /\ dir' = Empty /\ ver' = 0 /\ ndone' = 0 /\ prevGood' = 0
-        /\ phase' = "idle" /\ stray' = FALSE
+        /\ phase' = "idle" /\ stray' = FALSE /\ recovered' = FALSE
 
 TProc == /\ IsEvent("procstart") /\ phase = "idle"
-         /\ UNCHANGED <<dir, ver, ndone, prevGood, phase, stray>>
+         /\ UNCHANGED <<dir, ver, ndone, prevGood, phase, stray, recovered>>
+\* recovery: the previous process died inside a dump, a new one is started in the folder it left behind
+TRecover == /\ IsEvent("procstart") /\ phase = "crashed"
+            /\ phase' = "recovered" /\ recovered' = TRUE
+            /\ UNCHANGED <<dir, ver, ndone, prevGood, stray>>
 
-TBegin == /\ IsEvent("h.begin") /\ phase = "idle"
+TBegin == /\ IsEvent("h.begin") /\ phase \in {"idle", "recovered"}
           /\ ver' = Rec.k
           /\ prevGood' = IF dir[-1].complete THEN dir[-1].ver ELSE 0
           /\ phase' = "dumping"
-          /\ UNCHANGED <<dir, ndone, stray>>
+          /\ UNCHANGED <<dir, ndone, stray, recovered>>
 
 TClosed == /\ IsEvent("h.closed") /\ phase = "dumping" /\ Rec.k = ver
            /\ dir' = DirOf(Rec.files)
            /\ stray' = HasStray(Rec.files)
            /\ ndone' = ndone + 1
            /\ phase' = "idle"
-           /\ UNCHANGED <<ver, prevGood>>
+           /\ UNCHANGED <<ver, prevGood, recovered>>
 
 TEnd == /\ IsEvent("end")
         /\ dir' = DirOf(Rec.files)
         /\ stray' = HasStray(Rec.files)
-        /\ phase' = CASE Rec.how = "exit" -> (IF phase = "idle" THEN "idle" ELSE "aborted")
+        /\ phase' = CASE Rec.how = "exit" -> (IF phase \in {"idle", "recovered"} THEN phase ELSE "aborted")
                       [] Rec.how = "crashed" -> (IF phase = "dumping" THEN "crashed" ELSE "idle")
                       [] OTHER -> "aborted"
-        /\ UNCHANGED <<ver, ndone, prevGood>>
+        /\ UNCHANGED <<ver, ndone, prevGood, recovered>>
 
-Next == TScn \/ TProc \/ TBegin \/ TClosed \/ TEnd
+Next == TScn \/ TProc \/ TRecover \/ TBegin \/ TClosed \/ TEnd
 Spec == Init /\ [][Next]_vars
 
 NotAccepted == l <= Len(TraceLog)
@@ -79,7 +88,8 @@ PrintMaxL == PrintT(<<"MAXL", TLCGet(1)>>)
 
 \* ---- Layer A ----
 NeverAborts == phase # "aborted"
-AfterDump == (phase = "idle" /\ ndone > 0) => AfterDumpOK(dir, ver, ndone)
+AfterDump == (phase = "idle" /\ ndone > 0) =>
+               IF recovered THEN AfterRecoveredDumpOK(dir, ver) ELSE AfterDumpOK(dir, ver, ndone)
 CrashSafe == (phase = "crashed") => CrashSafeOK(dir, prevGood)
 NoStrayFiles == ~stray
 =============================================================================
